@@ -419,7 +419,9 @@ def run_case(case):
     _idlayout['v'] = ('descending', 'mixed', 'ascending')[(len(case['ins']) + 2 * case['fault'] + case['ins'][0]['n']) % 3]
     # ... every third one as signed numbers around zero (the identifiers of the first input stay positive, those of
     # the later ones are negative: the merged table has both signs)
-    _idr['wide'], _idr['zero'], _idr['signed'] = _k == 1, False, 250 if _k == 2 else 0
+    # (offset 201: the LAST item of the input whose block is 2 carries the flight identifier 0 itself - an identifier like
+    # any other, not "unset"; round 17)
+    _idr['wide'], _idr['zero'], _idr['signed'] = _k == 1, False, 201 if _k == 2 else 0
     try:
         ins = case['ins']
         paths, apaths = make_inputs(d, ins, case['assoc'], form=case['form'])
